@@ -254,7 +254,7 @@ C05_Update(B, T, v, fare) ==
            dBal  == T.st[s].bal - B.st[s].bal IN
           (IF Abs(dDisp - dE) > 2 THEN {V("C05", "energy_both_sides", a, v)} ELSE {})
        \cup (IF Abs(dBal - pay) > 2 THEN {V("C05", "payment_received_in_full", a, v)} ELSE {})
-       \cup (IF Abs(pay - ((price * dE) \div 1000)) > 3 + (price \div 500) THEN {V("C05", "priced_at_tariff", a, v)} ELSE {})
+       \cup (IF Abs(pay - ((price * dE) \div 1000)) > 3 + (Abs(price) \div 500) THEN {V("C05", "priced_at_tariff", a, v)} ELSE {})
        \cup (IF StationsTouched(B, T) \ {s} # {} THEN {V("C05", "only_the_station_used", a, v)} ELSE {})
        \cup (IF \E kk \in (DOMAIN T.st[s].disp \cap DOMAIN B.st[s].disp) \ {k} : T.st[s].disp[kk] # B.st[s].disp[kk]
              THEN {V("C05", "energy_type_booked", a, v)} ELSE {})
@@ -344,6 +344,15 @@ C06_Frame(B, T, isUpdate, uv) ==
   {V("C06", "moves_only_while_travelling", T.veh[v].act, v) : v \in {v \in DOMAIN B.veh \cap DOMAIN T.veh :
       /\ (B.veh[v].pos # T.veh[v].pos \/ B.veh[v].odo # T.veh[v].odo)
       /\ ~(isUpdate /\ v = uv /\ (T.veh[v].act \in Moving \/ (T.veh[v].act = "OutOfService" /\ B.veh[v].act \in Moving)))}}
+
+\* "its odometer grows by exactly the distance covered" also in the step in which the vehicle runs dry or arrives: a
+\* changed position with an odometer that did not grow at all (exact comparison of the floats, logged as n.odo_up) is
+\* only possible over links of no length
+C06_Odo(B, T, v, n) ==
+  LET R0 == B.veh[v].rt IN
+  IF B.veh[v].act \in Moving /\ "odo_up" \in DOMAIN n /\ ~n.odo_up /\ T.veh[v].pos # B.veh[v].pos
+     /\ ~\E i \in DOMAIN R0 : LEnd(R0[i]) = T.veh[v].pos /\ SumSeq(R0, i, LDist) = 0
+  THEN {V("C06", "odometer_matches_distance", "moved_without_odometer", v)} ELSE {}
 
 \* a vehicle whose route is exhausted leaves the travelling activity at its next update
 C06_Arrived(T, arrived, v) ==
